@@ -45,6 +45,28 @@ def is_call(n):
     return n["k"] in CALLS
 
 
+def declref(n):
+    """the DeclRefExpr an argument boils down to (through casts and copy/conversion constructors), else None"""
+    hops = 0
+    while n is not None and hops < 8:
+        hops += 1
+        n = strip(n)
+        if n is None:
+            return None
+        if n["k"] == "DeclRefExpr":
+            return n
+        if n["k"] in ("CXXConstructExpr", "CXXTemporaryObjectExpr") and len(kids(n)) >= 1 and all(x["k"] == "CXXDefaultArgExpr" for x in kids(n)[1:]):
+            n = kids(n)[0]
+            continue
+        return None
+    return None
+
+
+def decl_of(n):
+    d = declref(n)
+    return d.get("d") if d is not None else None
+
+
 def callee(n):
     return n.get("callee", "")
 
